@@ -459,9 +459,125 @@ Qed.
 Theorem GroupsOk_psteps c c' : psteps c c' -> GroupsOk c -> GroupsOk c'.
 Proof. induction 1; [apply GroupsOk_pstep; assumption|tauto|tauto]. Qed.
 
+(** ** Loader.restore_placement: the placement part leaves groups and identities alone, then the recorded identity is forced *)
+Lemma srv_put_lease_eqi c sn an l c' : srv_put_lease c sn an l = Some c' ->
+  c_groups c' = c_groups c /\ Forall2 app_eqi (c_apps c) (c_apps c').
+Proof.
+  unfold srv_put_lease. destruct (get_srv sn (c_servers c)) as [s|]; [|discriminate].
+  destruct (get_app an (c_apps c)) as [a|]; [|discriminate]. destruct (put_guard c s a l); [|discriminate].
+  intros H. inversion H; subst c'. clear H.
+  pose proof (same_core_trans _ _ _ (bump_from_sc (prim_put c sn an a l) (s_parent s) [(a_aff a, 1)] 1)
+                (adjust_down_from_sc _ (s_parent s) (Some (s_free s)))) as (_ & _ & _ & H4 & _ & H6 & _).
+  rewrite H4, H6. unfold prim_put. cbn [c_upd_app c_upd_srv c_apps c_groups set]. split; [reflexivity|].
+  apply Forall2_eqi_upd. intros x. destruct (a_expiry x); repeat split.
+Qed.
+Lemma Forall2_eqi_trans l1 l2 l3 : Forall2 app_eqi l1 l2 -> Forall2 app_eqi l2 l3 -> Forall2 app_eqi l1 l3.
+Proof.
+  intros H. revert l3. induction H as [|a b l l' Hab _ IH]; intros l3 H3; inversion H3; subst; constructor.
+  - destruct Hab as (A1 & A2 & A3). match goal with X : app_eqi b _ |- _ => destruct X as (B1 & B2 & B3) end.
+    repeat split; congruence.
+  - apply IH. assumption.
+Qed.
+Lemma restore_put_eqi c sn an vb ex :
+  c_groups (fst (restore_put c sn an vb ex)) = c_groups c /\ Forall2 app_eqi (c_apps c) (c_apps (fst (restore_put c sn an vb ex))).
+Proof.
+  unfold restore_put. destruct vb.
+  - unfold srv_restore. destruct (get_app an (c_apps c)) as [a|]; [|split; [reflexivity|apply Forall2_eqi_refl]].
+    destruct (srv_put_lease c sn an 0) as [c'|] eqn:E; cbn [fst c_upd_app c_apps c_groups set].
+    + destruct (srv_put_lease_eqi _ _ _ _ _ E) as [Hg Hf]. split; [exact Hg|].
+      eapply Forall2_eqi_trans; [exact Hf|]. apply Forall2_eqi_upd. intros x; repeat split.
+    + split; [reflexivity|]. apply Forall2_eqi_upd. intros x; repeat split.
+  - destruct (get_app an (c_apps c)) as [a|]; [|split; [reflexivity|apply Forall2_eqi_refl]].
+    destruct (a_once a); [split; [reflexivity|apply Forall2_eqi_refl]|].
+    unfold srv_put. destruct (get_app an (c_apps c)) as [a2|]; [|split; [reflexivity|apply Forall2_eqi_refl]].
+    destruct (srv_put_lease c sn an (a_lease a2)) as [c'|] eqn:E; cbn [fst]; [|split; [reflexivity|apply Forall2_eqi_refl]].
+    exact (srv_put_lease_eqi _ _ _ _ _ E).
+Qed.
+
+Definition force_ok (c : cell) (an i : Z) : Prop :=
+  forall a, get_app an (c_apps c) = Some a ->
+    0 <= i /\ exists g, a_group a = Some g /\
+      forall n2 b, n2 <> an -> get_app n2 (c_apps c) = Some b -> ~ holds b g i.
+
+Lemma force_ok_eqi c c' an i : Forall2 app_eqi (c_apps c) (c_apps c') -> force_ok c an i -> force_ok c' an i.
+Proof.
+  intros Hf H a' Ha'. pose proof (get_app_eqi _ _ Hf an) as Hq. rewrite Ha' in Hq.
+  destruct (get_app an (c_apps c)) as [a|] eqn:Ea; [|contradiction]. destruct Hq as (_ & Q2 & _).
+  destruct (H a Ea) as (H0 & g & Hg & Hoth). split; [exact H0|]. exists g. split; [congruence|].
+  intros n2 b' Hne Hb' [Hh1 Hh2]. pose proof (get_app_eqi _ _ Hf n2) as Hq2. rewrite Hb' in Hq2.
+  destruct (get_app n2 (c_apps c)) as [b|] eqn:Eb; [|contradiction]. destruct Hq2 as (_ & R2 & R3).
+  apply (Hoth n2 b Hne Eb). split; congruence.
+Qed.
+
+Lemma Ident_force c an i : force_ok c an i -> Ident c -> Ident (force_identity c an (Some i)).
+Proof.
+  intros Hok HI. unfold force_identity.
+  destruct (get_app an (c_apps c)) as [a|] eqn:Ea; [|exact HI].
+  destruct (group_of c a) as [[g grp]|] eqn:Eg; [|exact HI].
+  unfold group_of in Eg. destruct (a_group a) as [g0|] eqn:Egr; [|discriminate].
+  destruct (aget g0 (c_groups c)) as [grp0|] eqn:Egg; [|discriminate]. inversion Eg; subst g0 grp0. clear Eg.
+  destruct (Hok a Ea) as (Hi0 & g' & Hg' & Hoth). rewrite Egr in Hg'. inversion Hg'; subst g'. clear Hg'.
+  destruct HI as [I0 I1 I2 I3 I4 I5 I6].
+  set (grp' := mkGroup (g_count grp) (zremove i (g_avail grp))).
+  set (fa := fun x : app => x <| a_identity := Some i |>).
+  assert (Hfa : forall x, a_name (fa x) = a_name x) by reflexivity.
+  pose proof (I3 _ _ Egg) as Hnd.
+  assert (Hget : forall n b, get_app n (upd_app an fa (c_apps c)) = Some b ->
+                             (n = an /\ b = fa a) \/ (n <> an /\ get_app n (c_apps c) = Some b)).
+  { intros n b Hb. destruct (Z.eq_dec n an) as [->|Hne].
+    - rewrite (get_upd_app_same _ _ _ _ Hfa Ea) in Hb. inversion Hb. left; auto.
+    - rewrite get_upd_app_other in Hb by assumption. right; auto. }
+  constructor; cbn [c_upd_app c_apps c_groups set].
+  - rewrite upd_app_names by exact Hfa. exact I0.
+  - intros n b g1 Hb Hgb.
+    destruct (Z.eq_dec g1 g) as [->|Hg]; [exists grp'; apply aget_aset_same|].
+    rewrite aget_aset_other by assumption.
+    destruct (Hget _ _ Hb) as [[-> ->]|[Hne Hb']]; [eapply I1; [exact Ea|exact Hgb]|eapply I1; eassumption].
+  - intros g1 grp1 j Hg1 Hj. destruct (Z.eq_dec g1 g) as [->|Hg].
+    + rewrite aget_aset_same in Hg1. inversion Hg1; subst grp1. cbn in *. apply zremove_In in Hj. eapply I2; eassumption.
+    + rewrite aget_aset_other in Hg1 by assumption. eapply I2; eassumption.
+  - intros g1 grp1 Hg1. destruct (Z.eq_dec g1 g) as [->|Hg].
+    + rewrite aget_aset_same in Hg1. inversion Hg1; subst grp1. cbn. apply zremove_NoDup. exact Hnd.
+    + rewrite aget_aset_other in Hg1 by assumption. eapply I3; exact Hg1.
+  - intros n b g1 j grp1 Hb [Hh1 Hh2] Hg1 Hj.
+    destruct (Hget _ _ Hb) as [[-> ->]|[Hne Hb']].
+    + cbn in Hh1, Hh2. rewrite Egr in Hh1. inversion Hh1; subst g1. inversion Hh2; subst j.
+      rewrite aget_aset_same in Hg1. inversion Hg1; subst grp1. cbn in Hj. eapply zremove_not_in; eassumption.
+    + destruct (Z.eq_dec g1 g) as [->|Hg].
+      * rewrite aget_aset_same in Hg1. inversion Hg1; subst grp1. cbn in Hj. apply zremove_In in Hj.
+        eapply I4; [exact Hb'|split; eassumption|exact Egg|exact Hj].
+      * rewrite aget_aset_other in Hg1 by assumption. eapply I4; [exact Hb'|split; eassumption|exact Hg1|exact Hj].
+  - intros n1 n2 b1 b2 g1 j Hb1 Hb2 [Hh1 Hh2] [Hk1 Hk2].
+    destruct (Hget _ _ Hb1) as [[-> ->]|[Hne1 Hb1']]; destruct (Hget _ _ Hb2) as [[-> ->]|[Hne2 Hb2']].
+    + reflexivity.
+    + cbn in Hh1, Hh2. rewrite Egr in Hh1. inversion Hh1; subst g1. inversion Hh2; subst j.
+      exfalso. apply (Hoth n2 b2 Hne2 Hb2'). split; assumption.
+    + cbn in Hk1, Hk2. rewrite Egr in Hk1. inversion Hk1; subst g1. inversion Hk2; subst j.
+      exfalso. apply (Hoth n1 b1 Hne1 Hb1'). split; assumption.
+    + eapply I5; [exact Hb1'|exact Hb2'|split; eassumption|split; eassumption].
+  - intros n b g1 j Hb [Hh1 Hh2].
+    destruct (Hget _ _ Hb) as [[-> ->]|[Hne Hb']].
+    + cbn in Hh2. inversion Hh2; subst j. exact Hi0.
+    + eapply I6; [exact Hb'|split; eassumption].
+Qed.
+Lemma GroupsOk_force c an i : GroupsOk c -> GroupsOk (force_identity c an i).
+Proof.
+  intros HG. unfold force_identity. destruct i as [i|]; [|exact HG]. destruct (get_app an (c_apps c)) as [a|]; [|exact HG].
+  destruct (group_of c a) as [[g grp]|] eqn:Eg; [|exact HG].
+  eapply GroupsOk_aset; [reflexivity| |exact HG]. cbn.
+  unfold group_of in Eg. destruct (a_group a); [|discriminate]. destruct (aget z (c_groups c)) eqn:E; [|discriminate].
+  inversion Eg; subst. eapply (go_count _ HG); exact E.
+Qed.
+
 (** ** step and run *)
 Definition wf_op_id (c : cell) (o : op) : Prop :=
   match o with
+  | ORestore sname aname verbatim expires ident =>
+      (* a recorded identity is one nobody else of the group holds (the store recorded a state of this invariant) *)
+      match ident with
+      | Some i => force_ok c aname i
+      | None => forall a, get_app aname (c_apps c) = Some a -> a_group a = None \/ a_identity a <> None
+      end
   | OAddApp label path a => get_app (a_name a) (c_apps c) = None -> a_identity a = None
   | OConfigGroup g count => 0 <= count
   | _ => True
@@ -682,6 +798,16 @@ Proof.
   - revert H; apply IdentG_ext; reflexivity.
   - pose proof (schedule_ps c choices) as Hps. destruct (schedule c choices) as [[c' qs] pl]. cbn [fst] in Hps.
     eapply IdentG_psteps; eassumption.
+  - (* ORestore *)
+    unfold restore_op. destruct (get_app aname (c_apps c)) as [a|]; [|exact H].
+    pose proof (IdentG_psteps _ _ (restore_put_ps c sname aname verbatim expires) H) as H1.
+    pose proof (restore_put_eqi c sname aname verbatim expires) as [_ Hq].
+    destruct (restore_put c sname aname verbatim expires) as [c1 ok]. cbn [fst] in H1, Hq.
+    destruct ok.
+    + destruct H1 as [HI HG]. split; [|apply GroupsOk_force; exact HG].
+      destruct ident as [i|]; [|exact HI]. apply Ident_force; [|exact HI]. eapply force_ok_eqi; [exact Hq|exact Hwf].
+    + destruct (a_once a); [|exact H1]. destruct H1 as [HI HG].
+      split; [apply Ident_remove_app; assumption|apply GroupsOk_remove_app; assumption].
 Qed.
 
 Fixpoint wf_ops_id (c : cell) (ops : list op) : Prop :=
